@@ -147,10 +147,18 @@ func genCase(r *hx.Rand, layer string, opt genOpt, thorough bool) In {
 	if r.Chance(1, 10) {
 		in.Method = "POST"
 	}
+	// a third of the cases is steered towards the compress branch (documented expression, a matching type, gzip
+	// accepted, no encoding): otherwise the refusals, of which there are many kinds, crowd it out
+	favour := opt.patterns == nil && opt.ctypes == nil && r.Chance(1, 3)
+	if favour {
+		in.Pattern = DocPattern
+		opt.ctypes = []string{"text/html", "text/html; charset=utf-8", "text/plain", "application/json", "application/javascript",
+			"application/vnd.api+json", "text/css", "application/xml;q"}
+	}
 	// request headers
 	aeKey := r.Pick([]string{"Accept-Encoding", "Accept-Encoding", "accept-encoding", "ACCEPT-ENCODING"})
 	switch k := r.Intn(20); {
-	case k < 12:
+	case k < 12 || favour:
 		in.Req = append(in.Req, [2]string{aeKey, r.Pick(aeAccept)})
 	case k < 16:
 		in.Req = append(in.Req, [2]string{aeKey, r.Pick(aeReject)})
@@ -195,7 +203,7 @@ func genCase(r *hx.Rand, layer string, opt genOpt, thorough bool) In {
 		i := r.Intn(len(hdrNames))
 		ops = append(ops, Op{Op: r.Pick([]string{"set", "add", "add"}), K: hdrNames[i], V: hdrVals[r.Intn(len(hdrVals))]})
 	}
-	if r.Chance(3, 20) {
+	if r.Chance(3, 20) && !favour {
 		ops = append(ops, Op{Op: "set", K: r.Pick([]string{"Content-Encoding", "content-encoding"}), V: r.Pick(encodings)})
 	}
 	if r.Chance(1, 3) {
